@@ -41,7 +41,8 @@ VARIABLES
     flash,      \* Node -> SUBSET Item: recent-hash memory
     adm,        \* Node -> SUBSET Item: admitted by the ledger (vertices) / saved in the cache (transactions)
     admc,       \* Node -> Item -> number of successful ledger admissions / first saves
-    parked,     \* Node -> SUBSET Item: vertices parked in the ledger's orphan buffer
+    parked,     \* Node -> set of <<item, k>>: vertices parked in the ledger's orphan buffer; the buffer is a list and
+                \* takes the same vertex again when it is offered again (k-th copy), e.g. after the window has passed
     msgs,       \* in-flight messages [from, to, item, gs]
     seen,       \* messages already delivered once (candidates for duplication)
     sent,       \* Node -> Item -> number of forwarding rounds
@@ -77,6 +78,8 @@ Init ==
     /\ sent = [n \in Node |-> [i \in Item |-> 0]]
     /\ ndup = 0 /\ nforge = 0 /\ nexp = [n \in Node |-> 0]
 
+PI(n) == {p[1] : p \in parked[n]}                         \* the items parked at n
+Copies(n, i) == Cardinality({p \in parked[n] : p[1] = i})
 ParentKnown(n, i) == Parent[i] = NoItem \/ Parent[i] \in adm[n]
 
 \* the item is accepted at its origin (CreateLeaf / Propose) and handed to the gossip loop
@@ -117,7 +120,7 @@ ReceiveIn(m, pool) ==
                          msgs' = rest /\ UNCHANGED <<adm, admc, parked, sent>>
                     ELSE IF ~ParentKnown(n, i)
                     THEN \* parked by the ledger, reported as error, no forwarding (the parent is pulled: action Pull)
-                         /\ parked' = [parked EXCEPT ![n] = @ \cup {i}]
+                         /\ parked' = [parked EXCEPT ![n] = parked[n] \cup {<<i, Copies(n, i) + 1>>}]
                          /\ msgs' = rest /\ UNCHANGED <<adm, admc, sent>>
                     ELSE /\ adm' = [adm EXCEPT ![n] = @ \cup {i}]
                          /\ admc' = [admc EXCEPT ![n][i] = @ + 1]
@@ -153,23 +156,23 @@ Duplicate(m) ==
 \* processLackingParent: a node holding a parked vertex fetches the missing parent from a peer that has it
 Pull(n, c) ==
     LET p == Parent[c] IN
-    /\ n \in Honest /\ c \in parked[n] /\ p # NoItem /\ p \notin adm[n]
+    /\ n \in Honest /\ c \in PI(n) /\ p # NoItem /\ p \notin adm[n]
     /\ \E q \in peers[n] : p \in adm[q]
     /\ IF ParentKnown(n, p)
        THEN adm' = [adm EXCEPT ![n] = @ \cup {p}] /\ admc' = [admc EXCEPT ![n][p] = @ + 1] /\ UNCHANGED parked
-       ELSE parked' = [parked EXCEPT ![n] = @ \cup {p}] /\ UNCHANGED <<adm, admc>>
+       ELSE parked' = [parked EXCEPT ![n] = parked[n] \cup {<<p, Copies(n, p) + 1>>}] /\ UNCHANGED <<adm, admc>>
     /\ UNCHANGED <<peers, flash, msgs, seen, sent, orig, ndup, nforge, nexp>>
 
 \* the ledger's retry loop admits a parked vertex whose parent has arrived (nothing is forwarded)
 Retry(n, c) ==
-    /\ n \in Honest /\ c \in parked[n] /\ ParentKnown(n, c) /\ c \notin adm[n]
+    /\ n \in Honest /\ c \in PI(n) /\ ParentKnown(n, c) /\ c \notin adm[n]
     /\ adm' = [adm EXCEPT ![n] = @ \cup {c}]
     /\ admc' = [admc EXCEPT ![n][c] = @ + 1]
-    /\ parked' = [parked EXCEPT ![n] = @ \ {c}]
+    /\ parked' = [parked EXCEPT ![n] = parked[n] \ {<<c, Copies(n, c)>>}]
     /\ UNCHANGED <<peers, flash, msgs, seen, sent, orig, ndup, nforge, nexp>>
 RetryDrop(n, c) ==
-    /\ n \in Honest /\ c \in parked[n] /\ c \in adm[n]
-    /\ parked' = [parked EXCEPT ![n] = @ \ {c}]
+    /\ n \in Honest /\ c \in PI(n) /\ c \in adm[n]
+    /\ parked' = [parked EXCEPT ![n] = parked[n] \ {<<c, Copies(n, c)>>}]
     /\ UNCHANGED <<peers, flash, adm, admc, msgs, seen, sent, orig, ndup, nforge, nexp>>
 
 \* ---- adversary ----
@@ -223,7 +226,7 @@ Next ==
 
 Quiet ==
     /\ msgs = {} /\ orig = Item
-    /\ \A n \in Honest, c \in Item : c \in parked[n] => ~ENABLED Pull(n, c) /\ ~ENABLED Retry(n, c) /\ ~ENABLED RetryDrop(n, c)
+    /\ \A n \in Honest, c \in Item : c \in PI(n) => ~ENABLED Pull(n, c) /\ ~ENABLED Retry(n, c) /\ ~ENABLED RetryDrop(n, c)
 
 Spec == Init /\ [][Next]_vars /\ WF_vars(Next)
 
@@ -251,7 +254,7 @@ C11_AllReached ==
 \* the parent fetch or the orphan retry - paths that do not forward - or still holds it parked
 C11_SignatureF13 ==
     \A i \in Item, n \in Honest : (Quiet /\ Origin[i] \in Honest /\ n \in HonestReach(Origin[i]) /\ i \notin adm[n]) =>
-        \E r \in Honest : r # Origin[i] /\ ((i \in adm[r] /\ sent[r][i] = 0) \/ i \in parked[r])
+        \E r \in Honest : r # Origin[i] /\ ((i \in adm[r] /\ sent[r][i] = 0) \/ i \in PI(r))
 C11_AllReachedModuloF13 == C11_AllReached \/ C11_SignatureF13
 
 \* C12: only valid entries count (by construction of Verified; conformance binds it to the code), and an
@@ -260,6 +263,6 @@ C12_NoSuppression == C11_AllReached
 \* signature of finding F14: an item is missing at a node only if that node saw its hash without admitting it
 C12_SignatureF14 ==
     \A i \in Item, n \in Honest : (Quiet /\ Origin[i] \in Honest /\ n \in HonestReach(Origin[i]) /\ i \notin adm[n]) =>
-        (i \in flash[n] /\ i \notin parked[n])
+        (i \in flash[n] /\ i \notin PI(n))
 C12_NoSuppressionModuloF14 == C12_NoSuppression \/ C12_SignatureF14
 =============================================================================
